@@ -64,6 +64,8 @@ class StepBudget(BaseException):
     """raised by the line-counting watchdog when execute() runs absurdly long (a scheduler that spins)"""
 
 
+NOT_GIVEN = object()    # `exec d`: enforce_static_checks left out (None is a value a caller may pass: `exec n0`)
+
 STEP_BUDGET = 200_000   # source lines of wiring_runtime.py per execute(); honest runs of 7 modules need < 2 000
 
 
@@ -933,7 +935,7 @@ class C16(Prop):
                     del inner_calls[:]
                     try:
                         a = {k: dict(v) for k, v in cur["ext"].items()} or None
-                        if cur["enforce"] is None:
+                        if cur["enforce"] is NOT_GIVEN:
                             exe.execute(a)
                         else:
                             exe.execute(a, enforce_static_checks=cur["enforce"])
@@ -1212,7 +1214,7 @@ class C16(Prop):
                     extarg = {k: dict(v) for k, v in ext.items()} or None
                     if nexec[0] % 4 < 2 and ext:
                         extarg = ext      # the caller's own dict object, handed over again at later calls
-                    cur.update(ext={k: dict(v) for k, v in ext.items()}, enforce=None if t[1] == "d" else enforce)
+                    cur.update(ext={k: dict(v) for k, v in ext.items()}, enforce=NOT_GIVEN if t[1] == "d" else enforce)
                     nexec[0] += 1
                     if t[1] == "d":
                         kind, val = self._bounded(lambda: exe.execute(extarg) if nexec[0] % 2 else exe.execute(external_inputs=extarg))
